@@ -12,6 +12,8 @@ positive fixture (fixtures/lint_fixture.py) must match on every run.
   L4 shared visited-set: a recursive function that creates its optional `visited`-style set on first entry, mutates it in
      place and hands the same object to its recursive calls - siblings see each other's marks, so a node reachable twice is
      expanded only once (path-scoped sets must be copied: `visited | {x}`)
+  L5 last iteration wins: a flag / value initialised before a loop, overwritten from the loop variable in every iteration (no
+     accumulation, no break) and only read after the loop - all iterations but the last are ignored
 """
 from __future__ import annotations
 
@@ -162,7 +164,37 @@ def l4_shared_visited_set(fn) -> Iterable[Tuple[ast.AST, str]]:
                               f"it, so a node needed at two places is expanded only at the first")
 
 
-LINTS = (("L1", l1_unused_loop_var), ("L2", l2_stale_loop_state), ("L3", l3_per_iteration_accumulator), ("L4", l4_shared_visited_set))
+def l5_last_iteration_wins(fn) -> Iterable[Tuple[ast.AST, str]]:
+    def scan(body):
+        for idx, st in enumerate(body):
+            if isinstance(st, (ast.For, ast.AsyncFor)):
+                has_break = any(isinstance(n, (ast.Break, ast.Return)) for s in st.body for n in ast.walk(s))
+                after = set()
+                for later in body[idx + 1:]:
+                    after |= _names_loaded(later)
+                loop_targets = set(_target_names(st.target))
+                if not has_break and not st.orelse:
+                    for s in st.body:
+                        if isinstance(s, ast.Assign) and len(s.targets) == 1 and isinstance(s.targets[0], ast.Name):
+                            v = s.targets[0].id
+                            reads_in_loop = any(v in _names_loaded(x) for x in st.body)
+                            # a value computed from the loop variable, never read in the loop, read after it, and initialised before it
+                            init_before = any(isinstance(b, (ast.Assign, ast.AnnAssign)) and v in _assigned_names(b) for b in body[:idx])
+                            if (not reads_in_loop and v in after and init_before and (_names_loaded(s.value) & loop_targets)
+                                    and not isinstance(s.value, ast.Name)):
+                                yield s, (f"`{v}` is initialised before the loop, overwritten (not accumulated) in every iteration of "
+                                          f"`for {ast.unparse(st.target)} in {ast.unparse(st.iter)[:50]}` and only read afterwards: "
+                                          f"only the last iteration decides")
+                scan(st.body)
+            elif isinstance(st, (ast.If, ast.With, ast.Try, ast.While)):
+                for f in ("body", "orelse", "finalbody"):
+                    b = getattr(st, f, None)
+                    if isinstance(b, list) and b and isinstance(b[0], ast.stmt):
+                        scan(b)
+    yield from scan(fn.body)
+
+
+LINTS = (("L5", l5_last_iteration_wins), ("L1", l1_unused_loop_var), ("L2", l2_stale_loop_state), ("L3", l3_per_iteration_accumulator), ("L4", l4_shared_visited_set))
 
 
 W, A = "gapic.schema.wrappers.", "gapic.schema.api."
@@ -280,7 +312,7 @@ def run_for(report):
 
 def run(report, pm, prefix_quals: Iterable[str], rule_id: str, what: str, floor: int = 3):
     """Apply the four rules to every repository function whose qualified name starts with one of `prefix_quals`."""
-    r = report.rule(rule_id, f"no loop-variable slip, stale loop state, per-iteration accumulator or shared visited set in {what}", floor=floor)
+    r = report.rule(rule_id, f"no loop-variable slip, stale or overwritten loop state, per-iteration accumulator or shared visited set in {what}", floor=floor)
     for e in prefix_quals:
         r.need(any(_matches(q, e) for q in pm.functions), e, "scope entry matches no function (renamed or removed mechanism: update vlib/lints.py SCOPES)")
     for q in scope_functions(pm, prefix_quals):
@@ -298,5 +330,5 @@ def run(report, pm, prefix_quals: Iterable[str], rule_id: str, what: str, floor:
             for lid, fn in LINTS:
                 if list(fn(f)):
                     hits.add(lid)
-    r.need(hits == {"L1", "L2", "L3", "L4"}, "fixtures/lint_fixture.py", f"rules matching their positive fixture: {sorted(hits)}")
+    r.need(hits == {"L1", "L2", "L3", "L4", "L5"}, "fixtures/lint_fixture.py", f"rules matching their positive fixture: {sorted(hits)}")
     return r
